@@ -16,7 +16,7 @@ from .. import randscenes, scenes, mcconf
 from . import chunkprops
 
 RUN_OPS = [['run_api', ''], ['metar_msg', 'layers'], ['metar_msg', 'groups'], ['metar_msg', 'slices']]
-KINDS = ['single_hit', 'only_nan', 'vv_only', 'types_gt3', 'extreme_heights', 'subsecond', 'daylong', 'coincident', 'dup_labels',
+KINDS = ['spike', 'single_hit', 'only_nan', 'vv_only', 'types_gt3', 'extreme_heights', 'subsecond', 'daylong', 'coincident', 'dup_labels',
          'all_high_type2', 'one_hit_bundle', 'two_values', 'identical', 'type0_with_height', 'type1_nan', 'missing_lower_types',
          'one_row', 'many_ceilos', 'random_tiny', 'random_mid', 'fractional', 'negative']
 
@@ -46,7 +46,23 @@ def rich_prms(rng, ceilos):
 def scene(kind, rng, name):
     d = {'family': 'F1deg', 'name': name, 'indomain': True, 'ops': RUN_OPS}
     ce = ['a', 'b']
-    if kind == 'single_hit':
+    if kind == 'spike':
+        # many hits at exactly one height plus a few tens of quantised hits scattered around it: the territory of issue #119
+        # (a mixture component left without any hit)
+        m = rng.randint(25, 45)
+        H = rng.choice([1000, 1000, 3000])
+        q = rng.choice([10, 10, 20])
+        scat = sorted(H + q * int(round(rng.gauss(0, rng.choice([4, 5, 7])))) for _ in range(m))
+        scat = [h for h in scat if h != H and h >= 0] or [H + q]
+        if rng.random() < 0.25:
+            rng.shuffle(scat)
+        step = rng.choice([4, 4, 3, 5])
+        n_hits = step * len(scat) + rng.randint(5, 40)
+        hs = [H] * n_hits
+        for i, v in enumerate(scat):
+            hs[step * i + 1] = v
+        rows = [['a', -5.0 * (n_hits - 1 - i), hs[i], 1] for i in range(n_hits)]
+    elif kind == 'single_hit':
         rows = [['a', -15.0 * i, None, 0] for i in range(rng.randint(0, 6))] + [['a', 5.0, rng.choice([0, 1, 500, 99999]), 1]]
     elif kind == 'only_nan':
         rows = [[rng.choice(ce), -15.0 * i, None, 0] for i in range(rng.randint(1, 12))]
@@ -147,6 +163,12 @@ def run(out, tier, seed):
         rng = random.Random(f'C08:{seed}:{i}')
         kind = KINDS[i % len(KINDS)]
         descs.append(scene(kind, rng, f'{kind}:{seed}:{i}'))
+    # issue #119 territory needs many tries: a dedicated batch with default parameters, judged for totality only
+    for i in range(640 if tier == 'quick' else 8000):
+        d = scene('spike', random.Random(f'C08spike:{seed}:{i}'), f'spikes:{seed}:{i}')
+        d['prms'] = {} if i % 4 else {'LAYERING_PRMS': {'gmm_kwargs': {'scores': 'AIC'}}}
+        d['light'] = True
+        descs.append(d)
     descs += ref_scenes()
     cfg = mcconf.chunk_cfg([], prmset='PrmMsaQ').replace('SPECIFICATION Spec\n', chunkprops.EXPORT_SPEC)
     f1, f1total = scenes.model_frames(cfg, 'PrmMsaQ', tier, seed, 300 if tier == 'quick' else 8000)
